@@ -26,10 +26,11 @@ ASSUMPTIONS = [
     "skipped",
 ]
 REQUIRED = {"eval.post": 1000, "triggered_reruns": 100, "kind:tr": 10,
-            "kind:init": 10, "kind:geo": 5, "kind:soc": 5}
+            "kind:init": 10, "kind:geo": 5, "kind:soc": 5,
+            "kind:tr_before_soc": 3}
 MIN_NONTRIVIAL = {"quick": 15, "thorough": 60}
 PLAN = [("target", 450, 7000), ("callback", 350, 5000), ("feas", 250, 4000),
-        ("multi", 150, 2500), ("soc", 300, 4000)]
+        ("multi", 150, 2500), ("soc", 400, 5000), ("bartarget", 150, 2000)]
 
 
 def cases(tier, seed):
@@ -61,9 +62,50 @@ def run_case(case):
         spec = c01.make_spec({"id": case["id"], "fam": "soc",
                               "idx": case["idx"], "seed": case["seed"]})
         spec["options"].pop("scale", None)
-        force_kind = "soc"
-        fam = str(rng.choice(["target", "callback", "multi"],
-                             p=[0.2, 0.65, 0.15]))
+        if rng.random() < 0.5:
+            force_kind = "soc"
+            fam = str(rng.choice(["target", "callback", "multi"],
+                                 p=[0.2, 0.65, 0.15]))
+        else:
+            # the trial point of a trust-region step that is FOLLOWED by a
+            # second-order correction; such a point rarely is a feasible
+            # record, so the request is (target, feasibility_tol) =
+            # (f_k, v_k) whenever no earlier point satisfies it
+            force_kind = "tr_before_soc"
+            fam = str(rng.choice(["target", "callback", "multi"],
+                                 p=[0.7, 0.1, 0.2]))
+    elif fam == "bartarget":
+        # targets at / beyond the extreme barrier with objective values that
+        # are NaN, infinite or huge at some evaluations
+        spec = base_spec(rng, "target")
+        if spec["obj"]["kind"] == "none":
+            spec["obj"] = gen.objective(rng, spec["n"], ("quad", "abs"))
+        k = int(rng.integers(1, 4))
+        idx = sorted(set(int(v) for v in rng.integers(0, 12, k)))
+        if rng.random() < 0.5:
+            idx = [0] + idx
+        spec["faults"] = [{"target": "obj", "when": {"idx": idx},
+                           "val": str(rng.choice(["nan", "inf", "-inf",
+                                                  "huge", "-huge"]))}]
+        spec["options"]["target"] = float(rng.choice(
+            [math.inf, 1e35, 1e250, 2.0 ** 100, -2.0 ** 100, -1e35,
+             -1e250]))
+        spec["options"]["maxfev"] = int(rng.integers(15, 40))
+        rec = mrun.run(spec)
+        counts = e2e.base_counts(rec)
+        viols, info = oracles.o_c09(rec)
+        v7, _ = oracles.o_c07(rec)
+        viols += [v for v in v7 if v["clause"] == "status1_target"]
+        nt = None
+        tags = ["fam:bartarget"]
+        if info.get("trigger"):
+            counts["triggered_reruns"] = 1
+            nt = "bartarget|%s|%s|%s" % (spec["options"]["target"],
+                                         spec["faults"][0]["val"],
+                                         info.get("trigger_kind"))
+        return e2e.record(case, e2e.attach(viols, spec, rec), nt=nt,
+                          tags=tags, counts=counts,
+                          skipped=bool(info.get("ambiguous")))
     else:
         spec = base_spec(rng, fam)
     dry = mrun.run(spec)
@@ -85,8 +127,23 @@ def run_case(case):
                                                   "first"]))
         cands = []
         best = math.inf
-        for r in table:
+        use_tol = fam != "callback" and (force_kind == "tr_before_soc"
+                                         or rng.random() < 0.25)
+        seen = []
+        for j, r in enumerate(table):
             if not r["ok"] or r["v"] is None or math.isnan(r["v"]):
+                continue
+            if use_tol:
+                # (f_k, v_k) not dominated by an earlier evaluation, with a
+                # clear margin in the violation
+                ok = math.isfinite(r["f"]) and math.isfinite(r["v"]) and \
+                    r["v"] > 1e6 * (r["slack"] + 1e-300) and \
+                    not any(f <= r["f"] and v <= r["v"] * 1.01
+                            for f, v in seen)
+                if ok:
+                    cands.append(r)
+                if math.isfinite(r["f"]):
+                    seen.append((r["f"], r["v"]))
                 continue
             feasible = r["v"] <= tol and abs(r["v"] - tol) > 1e3 * r["slack"] \
                 + 1e-300
@@ -97,6 +154,13 @@ def run_case(case):
                 best = min(best, r["f"])
         if want_kind == "first":
             pick = [r for r in cands if r["i"] == 0]
+        elif want_kind == "tr_before_soc":
+            pick = [r for r in cands if r["kind"] == "tr" and r["i"] > 0
+                    and r["i"] + 1 < len(table)
+                    and table[r["i"] + 1]["kind"] == "soc"]
+            if not pick:
+                return e2e.record(case, [], tags=tags + ["dry:no_candidate"],
+                                  counts=counts, skipped=True)
         else:
             pick = [r for r in cands if r["kind"] == want_kind and r["i"] > 0]
         if not pick:
@@ -108,8 +172,18 @@ def run_case(case):
         k = r["i"] + 1
         spec2 = dict(spec)
         spec2["options"] = dict(spec["options"])
+        if use_tol:
+            spec2["options"]["feasibility_tol"] = r["v"] * 1.001
+            tags.append("target+tol")
         if fam == "target":
             spec2["options"]["target"] = r["f"]
+            if rng.random() < 0.3:
+                # a callback that never raises but RETURNS a value
+                spec2["callback"] = {
+                    "conv": str(rng.choice(["kw", "pos"])),
+                    "returns": str(rng.choice(["True", "np_true", "one",
+                                               "str", "list", "array"]))}
+                tags.append("cb_returns")
         elif fam == "callback":
             spec2["callback"] = {"conv": str(rng.choice(["kw", "pos"])),
                                  "stop_at": k}
@@ -149,6 +223,10 @@ def run_case(case):
                 f"{rec.res.status if rec.res is not None else None}", k=k))
         spec = spec2
         chosen_kind = r["kind"]
+        if force_kind == "tr_before_soc" and info.get("trigger") and \
+                info.get("trigger_kind") == "tr" and \
+                (info.get("k") or k) == k:
+            counts["kind:tr_before_soc"] = 1
         if info.get("trigger") is None and not info.get("ambiguous") \
                 and rec.res is not None:
             viols.append(oracles.V(
